@@ -62,6 +62,8 @@ type FuncSpec struct {
 	Names       []string // explicit receiver/parameter names given in the key: "T.M(recv, a, b)"
 	Implements  string   // key of the interface-method contract this function must satisfy
 	Reveal      []string // opaque spec functions whose definition this proof needs
+	Impure      []string // function values (as written at the call) whose calls may have any side effect
+	ImpureMods  map[string][]string // optional: the locations such a call may modify (assumed)
 }
 
 // splitKeyNames splits "Type.Method(recv, a, b)" into the key and the explicit names.
@@ -282,6 +284,25 @@ func (cs *Contracts) parseFile(fset *token.FileSet, f *ast.File, pkgPath string)
 		case "implements":
 			if cur != nil {
 				cur.Implements = rest
+			}
+		case "impure":
+			// impure NAME: calls through the function value written NAME have arbitrary side effects
+			// impure NAME: m1, m2   restricts the effect to the listed locations (modifies syntax)
+			if cur != nil {
+				if j := strings.Index(rest, ":"); j >= 0 {
+					name := strings.TrimSpace(rest[:j])
+					cur.Impure = append(cur.Impure, name)
+					if cur.ImpureMods == nil {
+						cur.ImpureMods = map[string][]string{}
+					}
+					for _, m := range strings.Split(rest[j+1:], ",") {
+						if m = strings.TrimSpace(m); m != "" {
+							cur.ImpureMods[name] = append(cur.ImpureMods[name], m)
+						}
+					}
+				} else {
+					cur.Impure = append(cur.Impure, strings.Fields(strings.ReplaceAll(rest, ",", " "))...)
+				}
 			}
 		case "reveal":
 			if cur != nil {
